@@ -181,6 +181,10 @@ BASES = [
     {"text": "y(i,j) = A(i,j) + B(i,j)", "target": "y", "out": "ds", "fm": {"A": "ds", "B": "ds"}, "dims": {"A": (2, 3), "B": (2, 3)}},
     {"text": "y(i) = a(i) * b(i) - 2", "target": "y", "out": "s", "fm": {"a": "s", "b": "s"}, "dims": {"a": (4,), "b": (4,)}},
     {"text": "y(j,i) = A(i,j) * 1.5", "target": "y", "out": "dd", "fm": {"A": "ds"}, "dims": {"A": (2, 3)}},
+    # two operands of the same order in different formats: swapping the formats gives another problem whose format
+    # *values* are the same multiset (a cache key that forgets which tensor has which format confuses them)
+    {"text": "y(i) = a(i) + b(i) * 2", "target": "y", "out": "d", "fm": {"a": "s", "b": "d"}, "dims": {"a": (4,), "b": (4,)}},
+    {"text": "y(i,j) = A(i,j) * B(i,j)", "target": "y", "out": "ds", "fm": {"A": "ds", "B": "dd"}, "dims": {"A": (2, 3), "B": (2, 3)}},
 ]
 
 
@@ -209,7 +213,12 @@ def near_miss(base, k):
     fm = dict(base["fm"])
     text = base["text"]
     out = base["out"]
-    kind = k % 6
+    kind = k % 7
+    if kind == 6:
+        names = sorted(fm)
+        if len(names) >= 2 and len(C.fmt_parts(fm[names[0]])[0]) == len(C.fmt_parts(fm[names[1]])[0]):
+            fm[names[0]], fm[names[1]] = fm[names[1]], fm[names[0]]
+        return text, out, fm
     if kind == 0 and " 1" in text or kind == 0 and " 2" in text:
         text = text.replace("+ 1", "+ 1.0").replace("- 2", "- 2.0")
     elif kind == 1:
@@ -253,7 +262,7 @@ def cache_histories(draw, tier):
             continue
         steps.append({
             "base": base if draw(st.integers(0, 4)) else draw(st.integers(0, len(BASES) - 1)),
-            "near": draw(st.integers(0, 5)) if r >= 6 else None,
+            "near": draw(st.sampled_from([0, 1, 2, 3, 4, 5, 6, 6])) if r >= 6 else None,
             "spelling": draw(st.integers(0, 3)),
             "fmt_spelling": draw(st.integers(0, 1)),
             "entry": draw(st.sampled_from(["evaluate", "method"])),
@@ -302,18 +311,24 @@ def check_history(case, worker):
         return result([fail("process-crashed", f"cache history: {rep['crash']}")], {"cache"}, True, jhash(case), None)
     if "error" in rep:
         raise bridge.HarnessError(rep["error"] + rep.get("trace", ""))
-    # isolated reference: every distinct request alone on a cleared cache
+    # isolated reference: every distinct request in a fresh process (a fork of a zygote that has only imported
+    # tensora), so no cache of any kind - not only the one the harness knows how to clear - can leak into it
     distinct = {}
     for r in reqs:
         if r is not None:
             distinct.setdefault(jhash(r), r)
-    iso_steps = []
-    for r in distinct.values():
-        iso_steps += [{"clear": True}, r]
-    iso = worker.call({"op": "cache_history", "steps": iso_steps}, timeout=600)
-    if "crash" in iso or "error" in iso:
-        raise bridge.HarnessError(f"isolated reference run failed: {iso}")
-    iso_by = {h: iso["steps"][2 * k + 1] for k, h in enumerate(distinct)}
+    iso_by = {}
+    for h, r in distinct.items():
+        if h not in FRESH_MEMO:
+            f = fresh_worker().call({"op": "fresh", "request": r}, timeout=300)
+            if "crash" in f or "error" in f:
+                raise bridge.HarnessError(f"fresh-process reference failed: {f}")
+            if "crash_in_fresh_process" in f:
+                f = {"raised": "ProcessCrashed: " + f["crash_in_fresh_process"]}
+            if len(FRESH_MEMO) > 4000:
+                FRESH_MEMO.clear()
+            FRESH_MEMO[h] = f
+        iso_by[h] = FRESH_MEMO[h]
     fails = []
     seen = set()
     labels = {"cache"}
@@ -355,6 +370,21 @@ def check_history(case, worker):
                   {"cache_steps": len(reqs)})
 
 
+FRESH_MEMO = {}   # request hash -> answer of a fresh process (a pure function of the request and the tree under test)
+_FRESH = []
+
+
+def fresh_worker():
+    if not _FRESH:
+        _FRESH.append(Worker(module="harness.native.zygote"))
+    return _FRESH[0]
+
+
+def close_fresh_worker():
+    while _FRESH:
+        _FRESH.pop().close()
+
+
 def cache_task(task):
     tier, seed, shard, n = task
     stats = Stats()
@@ -364,6 +394,7 @@ def cache_task(task):
             stats.add(case, check_history(case, w))
     finally:
         w.close()
+        close_fresh_worker()
     return stats
 
 
@@ -379,6 +410,7 @@ def replay(payload):
             return check_history(case, w)["fails"]
         finally:
             w.close()
+            close_fresh_worker()
     if payload.get("kind") == "request":
         st_ = Stats()
         outs = [gen_in_child(([case], [case["id"]], hs)) for hs in ("0", "1", "2", "3")]
